@@ -48,11 +48,22 @@ THEOREMS += ['CC.contractAll_eq', 'CC.sigmaAll_fix', 'CC.sigmaAll_fix_nonterm', 
     'CC.C16_zero_current_branches', 'CC.C16_zero_voltage_branches',
     'CC.C16_removeIdealCS_shape', 'CC.C16_removeIdealVS_shape', 'CC.C16_passive_shape', 'CC.C16_passive_survivors_iff',
     'CC.C16ex.exP_passive']
+# Round 5b: solution-level soundness of the three compositions as one theorem each, relative to the source-zeroed input
+# (CC/Properties/C16Passive.lean, built on the record-class lemmas of CC/Properties/C04Zeroing.lean)
+LEAN_MODULE_EXTRA += ['CC.Properties.C04Zeroing', 'CC.Properties.C16Passive']
+THEOREMS += ['CC.C04_zero_voltage_solutions', 'CC.C04_zero_current_solutions', 'CC.C04_zeroed_branch_both',
+    'CC.C16_removeIdealCS_sound', 'CC.C16_removeIdealVS_sound', 'CC.C16_passive_sound', 'CC.C16_passive_reported',
+    'CC.C16ex.exQ_passive', 'CC.C16ex.exQR_solves']
+# Round 5b: passive_network against the Spec port impedance PortZ (CC/Properties/C16PassivePort.lean) — PARTIAL, see OPEN_STATEMENTS
+LEAN_MODULE_EXTRA += ['CC.Properties.C16PassivePort']
+THEOREMS += ['CC.C16_passive_probe_sound', 'CC.C16_passive_port_mpr', 'CC.C16_passive_port_mp', 'CC.C16_passive_port',
+    'CC.passiveKeepsNode_zero', 'CC.passiveKeepsNode_of_not_short_terminal', 'CC.passive_stage_eq',
+    'CC.circuitEqsAll_filter_open', 'CC.C16ex.exP4_probe_wellPosed', 'CC.C16ex.exPR_solves']
 OPEN_STATEMENTS = ['WHICH branches survive contraction: PROVED in round 5 for the model — C16_short_shape (result = input branch list renamed by the computable node renaming shortSigma, minus the branches whose renamed terminals coincide; an equation between returned values, exceptions included), C16_short_survivors_iff / C16_short_survives / C16_short_contracted_dropped / C16_short_dropped_iff / C16_exempt_dropped_only_if_joined / C16_short_order, and the facts about the renaming (C16_short_sigma_eq_iff: two nodes get one name iff joined by non-exempt shorts; reference node and non-terminals fixed; nothing mapped to an absorbed node). A model that discards branches no longer satisfies the C16 theorems. What remains outside the theorems: they speak about the hand model, tied to the code by C16_gen_removeShort and per instance by the structural correspondence; self-loops of the INPUT are dropped iff at least one short is contracted (stated, C16_short_shape — a property of the code, not judged as right or wrong); C16_short_dropped_iff needs distinct identifiers (the Network constructor enforces them on the result, the hypothesis is on the input)',
                    'remove_open / remove_element / switch_ground / remove_ideal_* / passive_network: result branch lists PROVED in round 5 (C16_open_branches, C16_remove_element_filter [distinct ids], C16_switch_ground_branches + C16_switch_ground_ok_iff, C16_removeIdealCS_shape, C16_removeIdealVS_shape, C16_passive_shape, C16_passive_survivors_iff). "The input network is never modified" is not a statement about the model — its functions are pure, there is nothing to prove; that the Python functions do not mutate their arguments is judged by the oracle (input_modified) and by C20',
                    'converse direction for short-circuit contraction (every solution of the contracted network extends to the original): not universally true — a branch parallel to a contracted short is dropped (C16_short_dropped_iff says exactly which), and if it is an ideal source with V ≠ 0 the original has no solution; proved for open removal (C16_open_converse / C16_open_iff), covered per instance by the exact-solution oracle otherwise',
-                   'solution-level statements (CircuitEqs preserved) for remove_ideal_* / passive_network relative to the zeroed network: only through the composition C16_passive_shape + C16_open + C16_short applied stage by stage, not stated as one theorem',
-                   'passive_network port-impedance equality as a theorem (needs the C06 port spec)']
+                   'solution-level statements (CircuitEqs preserved) for remove_ideal_* / passive_network relative to the zeroed network: PROVED in round 5b as one theorem each — C16_removeIdealCS_sound, C16_removeIdealVS_sound, C16_passive_sound (every solution of the input skeleton with its non-exempt current / voltage / all sources set to 0 solves the returned network; reference label kept; every surviving branch is an input branch with the zeroed record, terminals moved only between equipotential nodes) and C16_passive_reported (well-posed result: the solver reports those values). The zeroing operations themselves are equivalences (C04_zero_voltage_solutions / C04_zero_current_solutions: same solution set as the skeleton with source value 0, record-class change included). Still one direction only for the compositions: the converse (every solution of the result extends to the source-zeroed input) is proved for open removal (C16_open_iff) but not for contraction — it needs currents through the contracted shorts routed along a spanning forest of the short-circuit graph; covered per instance by the exact-solution oracle',
+                   'passive_network port-impedance equality: PARTIAL in round 5b (CC/Properties/C16PassivePort.lean). Proved: every solution of the Spec probe network of N (all sources zeroed, unit test current a→b) solves the probe network of passive_network(N, keep), for two different nodes that the contraction does not rename (C16_passive_probe_sound; PassiveKeepsNode holds for the reference node and every node that is not a terminal of a contracted short / zeroed ideal voltage source); hence PortZ N\' z ⇒ PortZ N z when the probe network of N is solvable (C16_passive_port_mpr), PortZ N z ⇒ PortZ N\' z when the probe network of N\' is well-posed (C16_passive_port_mp), and the equivalence under both hypotheses (C16_passive_port; hypotheses met by a concrete network, C16ex). MISSING for the unconditional equality: the converse of short-circuit contraction for source-free networks — every solution of the contracted network extends to the original, the currents through the contracted shorts being routed along a spanning forest of the short-circuit graph so that KCL holds at the absorbed nodes; also not covered: ports at renamed nodes (needs pot (σ x) = pot x as a lemma) and a = b']
 ASSUMPTIONS = [
     'hand-written model CC/Model/Transform.lean is tied to Network/transformers.py twice: by the translator (CC/Gen/Transformers.lean, regenerated every run, proved equal to the hand model by C16_gen_*) and by the structural correspondence',
     'theorems give: every solution of the original solves the result; equality of *the* solutions additionally uses C01_unique for a well-posed result',
